@@ -77,9 +77,11 @@ pub open spec fn is_atom(g: G) -> bool { is_prim(g) && !(g is Pre) && !(g is Pos
 pub open spec fn nxt(b: Seq<u8>, t: Token, t2: Token) -> bool {
     !(t is EOF) && tok_post(b, tok_end(t, b.len() as int), t2, tok_end(t2, b.len() as int))
 }
+#[verifier::opaque]
 pub open spec fn lspine(g: G, x: int) -> bool decreases g {
     match g { G::Bin(l, _, t, _) => lbp(op_text(t)) >= x && lspine(*l, x), G::Cond(_, _, _, _, _) => x <= 0, _ => true }
 }
+#[verifier::opaque]
 pub open spec fn rspine(g: G, x: int) -> bool decreases g {
     match g { G::Bin(_, _, t, r) => rbp(op_text(t)) >= x && rspine(*r, x), G::Cond(_, _, _, _, _) => x <= 0, _ => true }
 }
@@ -242,8 +244,13 @@ pub proof fn lemma_bin_step<'a>(g: G<'a>, nt: Option<Token<'a>>, t_op: Token<'a>
         &&& (tok_is(cur, "?"@) || rspine(g2, la(b, cur)))
     }),
 {
-    reveal_with_fuel(wf, 2);
+    reveal_with_fuel(wf, 2); reveal_with_fuel(lspine, 2); reveal_with_fuel(rspine, 2);
 }
+// a primary has no operator on either spine
+pub proof fn lemma_prim_spines(g: G)
+    requires is_prim(g)
+    ensures forall|x: int| #[trigger] lspine(g, x), forall|x: int| #[trigger] rspine(g, x),
+{ reveal_with_fuel(lspine, 2); reveal_with_fuel(rspine, 2); }
 // building `c ? a : e` at the outermost level of an expression
 pub proof fn lemma_cond_step<'a>(g: G<'a>, tq: Token<'a>, ga: G<'a>, tc: Token<'a>, gb: G<'a>, b: Seq<u8>, cur: Token<'a>, min: int)
     requires
@@ -254,7 +261,7 @@ pub proof fn lemma_cond_step<'a>(g: G<'a>, tq: Token<'a>, ga: G<'a>, tc: Token<'
         &&& wf(gc, b, cur) &&& lspine(gc, min) &&& first(gc) == first(g)
     }),
 {
-    reveal_with_fuel(wf, 2);
+    reveal_with_fuel(wf, 2); reveal_with_fuel(lspine, 2); reveal_with_fuel(rspine, 2);
 }
 impl<'a> Parser<'a> {
     pub closed spec fn bytes(&self) -> Seq<u8> { self.tokenizer.bytes() }
